@@ -8,7 +8,9 @@ package checks
 // "*font.Font is immutable after NewFont and package-level tables are only written by init". The check decides
 // exactly that, by explicit-state exploration of operation interleavings with a write monitor:
 //
-//	shared roots    every shared *font.Font (6 fonts: glyf+GSUB/GPOS, CFF, CFF2 variable, gvar variable, morx, bitmap)
+//	shared roots    every shared *font.Font (7 fonts: glyf+GSUB/GPOS, CFF, CFF2 variable, gvar and HVAR variable, morx, bitmap; plus one
+//	                font per character map implementation of the corpus and a synthetic legacy symbol font, explored with the
+//	                cmap / FontMap / shaping operations)
 //	                and every package-level variable of every repository package (listed by tools/c17gen at build time)
 //	threads         2 threads x 2 operations (thorough: 3 against 2) and 3 threads x 1 operation, over an alphabet of 9 operations that are
 //	                forced to collide (same font, same glyphs, same lazily reachable tables, same globals)
@@ -80,6 +82,8 @@ type c17font struct {
 	text []rune
 	axis ot.Tag
 	max  float32
+	// cmapOnly: a font added for its character map implementation: explored with the cmap, FontMap and shaping operations only
+	cmapOnly bool
 }
 
 var (
@@ -103,23 +107,64 @@ func c17load() []*c17font {
 				continue
 			}
 			cf := &c17font{name: n, ft: ft}
-			it := ft.Cmap.Iter()
-			for it.Next() && len(cf.text) < 3 {
-				r, g := it.Char()
-				if r > ' ' && g != 0 {
-					cf.text = append(cf.text, r)
-				}
-			}
-			for len(cf.text) < 3 {
-				cf.text = append(cf.text, 'a')
-			}
+			cf.text = c17text(ft)
 			if axes := corpus.Axes(lds[0]); len(axes) > 0 {
 				cf.axis, cf.max = axes[0].Tag, axes[0].Maximum
 			}
 			c17fonts = append(c17fonts, cf)
 		}
+		// one font per character map implementation (the iterators and remappers differ), and a synthetic legacy symbol font
+		extra := map[string][]byte{"synthetic symbol font": c11SymbolFont(false)}
+		for _, f := range c11CmapKinds() {
+			extra[f.Name] = f.Data
+		}
+		var names []string
+		for n := range extra {
+			names = append(names, n)
+		}
+		sort.Strings(names)
+		have := map[string]bool{}
+		for _, cf := range c17fonts {
+			have[cf.name] = true
+		}
+		for _, n := range names {
+			if have[n] || extra[n] == nil {
+				continue
+			}
+			ld, err := ot.NewLoader(bytes.NewReader(extra[n]))
+			if err != nil {
+				continue
+			}
+			ft, err := font.NewFont(ld)
+			if err != nil {
+				continue
+			}
+			cf := &c17font{name: n, ft: ft, cmapOnly: true}
+			cf.text = c17text(ft)
+			c17fonts = append(c17fonts, cf)
+		}
 	})
 	return c17fonts
+}
+
+// c17text picks three mapped runes with lookups only: the harness must not run an operation under test (Cmap.Iter may
+// build a lazy memo) before the monitor watches
+func c17text(ft *font.Font) []rune {
+	var text []rune
+	for r := rune(0x21); r < 0x3100 && len(text) < 3; r++ {
+		if g, ok := ft.NominalGlyph(r); ok && g != 0 {
+			text = append(text, r)
+		}
+	}
+	for r := rune(0xF020); r < 0xF100 && len(text) < 3; r++ {
+		if g, ok := ft.NominalGlyph(r); ok && g != 0 {
+			text = append(text, r)
+		}
+	}
+	for len(text) < 3 {
+		text = append(text, 'a')
+	}
+	return text
 }
 
 // per-thread state: what a goroutine owns
@@ -168,11 +213,14 @@ func c17op(cf *c17font, th *c17thread, op int) string {
 			g2, ok2 := ft.VariationGlyph(r, 0xFE0F)
 			fmt.Fprint(&b, g, ok, g2, ok2, ";")
 		}
-		n := 0
-		for it := ft.Cmap.Iter(); it.Next() && n < 50; n++ {
+		// the whole iteration, as a set (the order of a format 0 character map is the order of a Go map)
+		var pairs []uint64
+		for it := ft.Cmap.Iter(); it.Next() && len(pairs) < 70000; {
 			r, g := it.Char()
-			fmt.Fprint(&b, r, g, ",")
+			pairs = append(pairs, uint64(r)<<32|uint64(g))
 		}
+		sort.Slice(pairs, func(i, j int) bool { return pairs[i] < pairs[j] })
+		fmt.Fprint(&b, len(pairs), mc.HashStr(fmt.Sprint(pairs)))
 	case 2:
 		for _, g := range []font.GID{1, 2, 3, 0xFFFF} {
 			e, ok := face.GlyphExtents(g)
@@ -442,16 +490,37 @@ func c17explore(r *mc.Reporter, cf *c17font, progs [][]int) {
 	}
 }
 
-func c17programs(n int) [][]int {
+func c17ops(cf *c17font) []int {
+	if cf.cmapOnly {
+		return []int{0, 1, 4, 6}
+	}
+	out := make([]int, c17nOps)
+	for i := range out {
+		out[i] = i
+	}
+	return out
+}
+
+func c17has(ops []int, op int) bool {
+	for _, o := range ops {
+		if o == op {
+			return true
+		}
+	}
+	return false
+}
+
+func c17programs(cf *c17font, n int) [][]int {
 	var out [][]int
 	cur := make([]int, n)
+	ops := c17ops(cf)
 	var rec func(i int)
 	rec = func(i int) {
 		if i == n {
 			out = append(out, append([]int{}, cur...))
 			return
 		}
-		for op := 0; op < c17nOps; op++ {
+		for _, op := range ops {
 			cur[i] = op
 			rec(i + 1)
 		}
@@ -462,7 +531,7 @@ func c17programs(n int) [][]int {
 
 func c17Shards(tier string) []string {
 	var s []string
-	for fi := range c17FontFiles {
+	for fi := range c17load() {
 		s = append(s, fmt.Sprintf("solo/%d", fi))
 		for a := 0; a < c17nOps; a++ {
 			s = append(s, fmt.Sprintf("pair/%d/%d", fi, a))
@@ -490,7 +559,7 @@ func c17Run(tier, shard string, r *mc.Reporter) {
 		return
 	}
 	cf := fonts[fi]
-	if tier == "quick" && len(corpus.Get(cf.name).Data) > 100<<10 && parts[0] != "solo" {
+	if tier == "quick" && corpus.Get(cf.name) != nil && len(corpus.Get(cf.name).Data) > 100<<10 && parts[0] != "solo" {
 		// the large font: pairs of single operations only in the quick tier
 		if parts[0] == "pair" {
 			a, _ := strconv.Atoi(parts[2])
@@ -500,10 +569,16 @@ func c17Run(tier, shard string, r *mc.Reporter) {
 		}
 		return
 	}
+	ops := c17ops(cf)
+	if len(parts) > 2 {
+		if a, _ := strconv.Atoi(parts[2]); !c17has(ops, a) {
+			return
+		}
+	}
 	switch parts[0] {
 	case "solo":
 		// write monitor over every sequential execution, all package-level variables
-		for _, p := range c17programs(2) {
+		for _, p := range c17programs(cf, 2) {
 			if r.Expired() {
 				break
 			}
@@ -512,8 +587,8 @@ func c17Run(tier, shard string, r *mc.Reporter) {
 		r.Count("package_level_variables_monitored", int64(len(c17globals())))
 	case "pair":
 		a, _ := strconv.Atoi(parts[2])
-		for a2 := 0; a2 < c17nOps; a2++ {
-			for _, pb := range c17programs(2) {
+		for _, a2 := range ops {
+			for _, pb := range c17programs(cf, 2) {
 				if r.Expired() {
 					break
 				}
@@ -522,13 +597,16 @@ func c17Run(tier, shard string, r *mc.Reporter) {
 		}
 	case "pair32":
 		// thorough: a thread of 3 operations against a thread of 2 operations (10 interleavings each)
-		if len(corpus.Get(cf.name).Data) > 100<<10 {
+		if corpus.Get(cf.name) != nil && len(corpus.Get(cf.name).Data) > 100<<10 {
 			return
 		}
 		a, _ := strconv.Atoi(parts[2])
 		a2, _ := strconv.Atoi(parts[3])
+		if cf.cmapOnly {
+			return
+		}
 		for a3 := 0; a3 < c17nOps; a3++ {
-			for _, pb := range c17programs(2) {
+			for _, pb := range c17programs(cf, 2) {
 				if r.Expired() {
 					break
 				}
@@ -537,8 +615,8 @@ func c17Run(tier, shard string, r *mc.Reporter) {
 		}
 	case "triple":
 		a, _ := strconv.Atoi(parts[2])
-		for b := 0; b < c17nOps; b++ {
-			for c := 0; c < c17nOps; c++ {
+		for _, b := range ops {
+			for _, c := range ops {
 				c17explore(r, cf, [][]int{{a}, {b}, {c}})
 			}
 		}
